@@ -222,6 +222,54 @@ def ob_klatt_concrete():
     return Ob("klattgrid-files-concrete", I("m"), check, kind="smt", smt=run, timeout=600, funcs=FUNCS[1:4], bounds="concrete cross-check: reference KlattGrid, open/modify/save/open/save with scalings by non-terminating decimals, tiny and huge magnitudes, integer and zero constants, sign change")
 
 
+def _synthetic(vals):
+    """a small KlattGrid as Praat writes it, whose LAST tier (gain) holds points"""
+    t, v1, v2, v3, g = vals
+    return ('File type = "ooTextFile"\nObject class = "KlattGrid"\n\nxmin = 0 \nxmax = 1 \n'
+            'pitch? <exists> \nxmin = 0 \nxmax = 1 \npoints: size = 1 \npoints [1]:\n    number = ' + t + ' \n    value = ' + v1 + ' \n'
+            'oral_formants? <exists> \nxmin = 0 \nxmax = 1 \nformants: size = 1 \nformants [1]:\n    xmin = 0 \n    xmax = 1 \n    points: size = 1 \n    points [1]:\n        number = ' + t + ' \n        value = ' + v2 + ' \n'
+            'bandwidths: size = 1 \nbandwidths [1]:\n    xmin = 0 \n    xmax = 1 \n    points: size = 1 \n    points [1]:\n        number = ' + t + ' \n        value = ' + v3 + ' \n'
+            'gain? <exists> \nxmin = 0 \nxmax = 1 \npoints: size = 2 \npoints [1]:\n    number = 0.25 \n    value = 7 \npoints [2]:\n    number = ' + t + ' \n    value = ' + g + ' \n')
+
+
+SYN = [("0.5", "98.5", "50", "7", "60.25"), ("0.30000000000000004", "1e-05", "2519.3075148880134", "0", "1.2345678901234567e-05"), ("0.75", "-3.5", "75", "7.25", "123456789")]
+
+
+def ob_klatt_synthetic_concrete():
+    def check(i):
+        d = tempfile.mkdtemp(prefix="verif_c19_")
+        try:
+            kg = kgio._openNormalKlattgrid(_synthetic(SYN[i]))
+            want = _dump(kg)
+            last = want[-1][3]
+            if last != [(0.25, 7.0), (float(SYN[i][0]), float(SYN[i][4]))]:
+                return "last tier read as %r" % (last,)
+            fn = os.path.join(d, "a.KlattGrid")
+            kg.save(fn)
+            back = kgio.openKlattgrid(fn)
+            if _dump(back) != want:
+                return "open(save(kg)) differs from kg: %r" % (_dump(back)[-1],)
+            fn2 = os.path.join(d, "b.KlattGrid")
+            back.save(fn2)
+            if _dump(kgio.openKlattgrid(fn2)) != want:
+                return "second cycle differs"
+            return True
+        finally:
+            shutil.rmtree(d, ignore_errors=True)
+
+    def run():
+        for i in range(len(SYN)):
+            try:
+                r = check(i)
+            except Exception as ex:  # noqa
+                r = "exception " + type(ex).__name__ + ": " + str(ex)[:100]
+            if r is not True:
+                return {"verdict": "REFUTED", "queries": i + 1, "cex_args": {"i": i}, "message": str(r), "refute_kind": "CONCRETE"}
+        return {"verdict": "CONFIRMED", "queries": len(SYN), "detail": "concrete cross-check"}
+
+    return Ob("klattgrid-synthetic-concrete", I("i"), check, kind="smt", smt=run, timeout=120, funcs=FUNCS[1:4], bounds="concrete cross-check: synthetic KlattGrids whose last tier holds points (values with 17 digits, exponents, integers, zero, negative)")
+
+
 PTS = [[], [(0.5, 100.0)], [(1.2345678901234567e-05, 3e-17), (0.1 + 0.2, 5e-324), (7.0, 75.0), (1e16, 1.7976931348623157e308)], [(0.25, 0.0), (1 / 3.0, 2 / 3.0)]]
 
 
@@ -298,5 +346,6 @@ def obligations(tier):
             obs.append(ob_modify(n, 1200))
         obs.append(ob_next_value(4, 1800))
     obs.append(ob_klatt_concrete())
+    obs.append(ob_klatt_synthetic_concrete())
     obs.append(ob_points_concrete())
     return obs
